@@ -537,9 +537,10 @@ func evaluateX(im image, cfg drv.Cfg, withJournal, light bool) *outcome {
 	p = safely(func() {
 		fo := ro
 		fo.Rollover = 1 << 20
+		fo.Check = true // with both set, Recover decides (documented: recovers directly)
 		lg, err := klevdb.Open(dir, fo)
 		if err != nil {
-			o.Append = "Open(Recover) of a second copy of the image failed: " + err.Error()
+			o.Append = "Open(Recover + Check) of a second copy of the image failed: " + err.Error()
 			return
 		}
 		msg := klevdb.Message{Time: time.UnixMicro(drv.BaseT + 500).UTC(), Key: []byte("a"), Value: []byte("first")}
@@ -1105,6 +1106,55 @@ func expand(f *seqx.Family, t Task, letter string) (seqx.Succ, error) {
 		}
 	}
 	seenC06 := map[string]bool{}
+	// C06 at depth 2: the process dies at this point (page cache intact, as in C05), the log is
+	// opened with Recover, and the power fails during or after that recovery: what had been
+	// acknowledged as durable before the crash must survive that as well. The recovery runs
+	// on the image with its journal recording; the durability state of the files is the real
+	// one of the crash point (tf), carried through the recovery's own writes and fsyncs.
+	seen06d2 := map[string]bool{}
+	judge06d2 := func(tf *fsState, k int, step, variant string) {
+		im := tf.full()
+		call, before, after := rec.ctxAt(k, m0)
+		wd := rec.durableAt(k)
+		if wd <= 0 {
+			return // nothing acknowledged as durable yet
+		}
+		o := evaluate(im, cfg, true)
+		if o.OpenErr != "" || len(o.RecJ) == 0 {
+			return
+		}
+		rfs := newFS()
+		for n, id := range tf.names {
+			rid, ok := o.RecIDs[n]
+			if !ok {
+				continue
+			}
+			f := tf.files[id]
+			rfs.files[rid] = &fsFile{data: append([]byte(nil), f.data...), synced: f.synced, writes: append([]int(nil), f.writes...)}
+			rfs.names[n] = rid
+		}
+		for ri, e := range o.RecJ {
+			if e.Kind == vos.EvMark {
+				continue
+			}
+			sd := "recovery: " + stepDesc(e, rfs)
+			rfs.apply(e)
+			ims, descs := cutImages(rfs, 64)
+			for ii, cim := range ims {
+				cnt.Cuts++
+				dg := fmt.Sprintf("%s|%s|%d", cim.digest(), call, wd)
+				if seen06d2[dg] {
+					continue
+				}
+				seen06d2[dg] = true
+				co := evaluateX(cim, cfg, false, true)
+				where := fmt.Sprintf("process crash after event %d of the journal (%s), then Open(Recover), power loss after event %d of the recovery; %s; acknowledged durable offset %d", k, variant, ri, descs[ii], wd)
+				for _, sym := range judgeC06(co, call, before, after, wd) {
+					report("C06", call, step+" then "+sd, "tail loss after recovery", sym, where)
+				}
+			}
+		}
+	}
 	judge06 := func(k int, step string) {
 		cnt.Points++
 		call, before, after := rec.ctxAt(k-1, m0)
@@ -1229,12 +1279,28 @@ func expand(f *seqx.Family, t Task, letter string) (seqx.Succ, error) {
 				judge05(tf.full(), k, step, fmt.Sprintf("torn after %d of %d bytes", b, len(e.Data)))
 			}
 		}
+		if do06 && depth2 && e.Kind == vos.EvWrite && !isHeaderWrite(e) && len(e.Data) > 1 {
+			for _, b := range tornLens(len(e.Data), "quick") {
+				variant := fmt.Sprintf("torn after %d of %d bytes", b, len(e.Data))
+				if e.Off+int64(b) < 8 || (t.Tier != "thorough" && !boundaryTorn(variant)) {
+					continue
+				}
+				tf := cloneFS(fs)
+				te := e
+				te.Data = e.Data[:b]
+				tf.apply(te)
+				judge06d2(tf, k, step, variant)
+			}
+		}
 		fs.apply(e)
 		if do05 && e.Kind != vos.EvFsync && e.Kind != vos.EvFsyncDir {
 			judge05(fs.full(), k, step, "after the step")
 		}
 		if do06 {
 			judge06(k+1, step)
+			if depth2 && e.Kind != vos.EvFsync && e.Kind != vos.EvFsyncDir {
+				judge06d2(fs, k, step, "after the step")
+			}
 		}
 	}
 	s.Calls = cnt.Images
@@ -1245,6 +1311,70 @@ func expand(f *seqx.Family, t Task, letter string) (seqx.Succ, error) {
 		s.Extra[k] = v
 	}
 	return s, nil
+}
+
+// cutImages enumerates the tail-loss images of a file-system state: every file with unsynced
+// bytes cut to its fsynced length, to an append boundary since, or not at all (never inside
+// the 8-byte file header); every combination, at most capN.
+func cutImages(fs *fsState, capN int) (ims []image, descs []string) {
+	type cutFile struct {
+		name string
+		cuts []int
+	}
+	var cf []cutFile
+	var names []string
+	for n := range fs.names {
+		names = append(names, n)
+	}
+	sort.Strings(names)
+	for _, n := range names {
+		fl := fs.files[fs.names[n]]
+		if fl == nil || fl.synced >= len(fl.data) {
+			continue
+		}
+		cs := map[int]bool{fl.synced: true, len(fl.data): true}
+		for _, end := range fl.writes {
+			if end > fl.synced && end <= len(fl.data) {
+				cs[end] = true
+			}
+		}
+		var cuts []int
+		for c := range cs {
+			if c > 0 && c < 8 {
+				continue
+			}
+			cuts = append(cuts, c)
+		}
+		sort.Ints(cuts)
+		cf = append(cf, cutFile{n, cuts})
+	}
+	total := 1
+	for _, c := range cf {
+		total *= len(c.cuts)
+	}
+	if total > capN {
+		total = capN
+	}
+	base := fs.full()
+	for combo := 0; combo < total; combo++ {
+		im := image{}
+		for n, b := range base {
+			im[n] = b
+		}
+		x := combo
+		var desc []string
+		for _, c := range cf {
+			cut := c.cuts[x%len(c.cuts)]
+			x /= len(c.cuts)
+			im[c.name] = base[c.name][:cut]
+			if cut != len(base[c.name]) {
+				desc = append(desc, fmt.Sprintf("%s cut to %d of %d", shortName(c.name), cut, len(base[c.name])))
+			}
+		}
+		ims = append(ims, im)
+		descs = append(descs, strings.Join(desc, ", "))
+	}
+	return
 }
 
 func judgeDepth2(im image, cfg drv.Cfg, call string, before, after *model.Log, step, variant, where string, report func(propID, call, step, variant, symptom, where string), cnt *counters) {
